@@ -449,15 +449,15 @@ func (el *eventloop) close(c *conn, err error) error {
 			c.fd, el.idx, os.NewSyscallError("close", err1))
 		errStr.WriteString(err1.Error())
 	}
-	if errStr.Len() > 0 {
-		return errors.New(strings.TrimSuffix(errStr.String(), " | "))
-	}
-
 	if action == Shutdown {
 		// This method is also called from places that can't hand the returned error
 		// over to the poller (a failed Conn.Write/AsyncWrite, Conn.Flush, EventLoop.Close),
+		// and it may return the errors of the poller or close(2) instead,
 		// make sure that the Shutdown action from OnClose always takes effect.
 		el.engine.shutdown(nil)
+	}
+	if errStr.Len() > 0 {
+		return errors.New(strings.TrimSuffix(errStr.String(), " | "))
 	}
 	return el.handleAction(c, action)
 }
